@@ -299,6 +299,56 @@ theorem rotation_ok_in_bounds (dim : Int) (axis : List Rat) (h : rotationMeaning
 
 example : rotationMeaningful 3 [0, 0, 1].length := by decide
 
+/-! ### Objects with state -/
+
+/-- history enters only through the shape: after an accepted history `h` the outcome of ANY continuation is
+    the outcome of that continuation on a fresh matrix of the current shape -/
+theorem matHist_append (h t : List MatOp) :
+    ∀ s : Nat × Nat, matHistGuard s h = pass → matHistGuard s (h ++ t) = matHistGuard (matShapeAfter s h) t := by
+  induction h with
+  | nil => intro s _; rfl
+  | cons op ops ih =>
+    intro s hp
+    simp only [List.cons_append, matShapeAfter, List.foldl_cons]
+    have e1 : matHistGuard s (op :: (ops ++ t)) = (match matOpGuard s op with
+      | .error _ => stop
+      | .ok _ => matHistGuard (matOpShape s op) (ops ++ t)) := rfl
+    have e2 : matHistGuard s (op :: ops) = (match matOpGuard s op with
+      | .error _ => stop
+      | .ok _ => matHistGuard (matOpShape s op) ops) := rfl
+    rw [e1]; rw [e2] at hp
+    cases hg : matOpGuard s op with
+    | error e => rw [hg] at hp; simp [stop, pass] at hp
+    | ok u => rw [hg] at hp; simp only [] at hp ⊢; exact ih _ hp
+
+/-- two accepted histories that end in the same shape are indistinguishable for every later request -/
+theorem matHist_shape_only (s1 s2 : Nat × Nat) (h1 h2 t : List MatOp)
+    (p1 : matHistGuard s1 h1 = pass) (p2 : matHistGuard s2 h2 = pass)
+    (hs : matShapeAfter s1 h1 = matShapeAfter s2 h2) :
+    matHistGuard s1 (h1 ++ t) = matHistGuard s2 (h2 ++ t) := by
+  rw [matHist_append h1 t s1 p1, matHist_append h2 t s2 p2, hs]
+
+theorem vecHist_append (h t : List VecOp) :
+    ∀ d : Nat, vecHistGuard d h = pass → vecHistGuard d (h ++ t) = vecHistGuard (vecDimAfter d h) t := by
+  induction h with
+  | nil => intro d _; rfl
+  | cons op ops ih =>
+    intro d hp
+    simp only [List.cons_append, vecDimAfter, List.foldl_cons]
+    have e1 : vecHistGuard d (op :: (ops ++ t)) = (match vecOpGuard d op with
+      | .error _ => stop
+      | .ok _ => vecHistGuard (vecOpDim d op) (ops ++ t)) := rfl
+    have e2 : vecHistGuard d (op :: ops) = (match vecOpGuard d op with
+      | .error _ => stop
+      | .ok _ => vecHistGuard (vecOpDim d op) ops) := rfl
+    rw [e1]; rw [e2] at hp
+    cases hg : vecOpGuard d op with
+    | error e => rw [hg] at hp; simp [stop, pass] at hp
+    | ok u => rw [hg] at hp; simp only [] at hp ⊢; exact ih _ hp
+
+example : matHistGuard (2, 3) [.resize 4 3, .at 3, .sum 4 3, .transpose] = pass ∧
+    matHistGuard (2, 3) [.resize 4 3, .at 4] = stop ∧ matHistGuard (2, 3) [.resize 4 3, .sum 2 3] = stop := by decide
+
 /-! ## 3. Interpolation -/
 
 theorem interpCtor_guard_iff (xs ys : List Rat) (xd fd : Rat) :
